@@ -8,6 +8,9 @@ Unbounded units (real source):
   wrap_phase        : result in [0, 2 pi) and congruent to its argument modulo 2 pi (assumed contract of the real % operator)
   frequency_transform[hilbert] : the SAME unwrapped phase array feeds the frequency (its scaled derivative) and the returned phase
                       (its wrap); all three outputs have the shape of the (2-d) input; amplitude = |analytic signal|
+  amplitude_normalise : column c of the result is NY(c, NK(c)) - the first iterate of  y -> y / envelope(y)  of THAT column at which the
+                      column's own budget of max_iters is used up, the envelope vanishes or |sum(envelope) - T| < thresh (so the columns of
+                      a set are normalised independently, which nht / quad rely on)
   scale laws (lemmas over the assumed contracts): for c > 0 the analytic signal scales with c, so its angle (hence phase and
                       frequency) is unchanged and its modulus (amplitude) scales with c.
 NOT decidable in this family: the accuracy clause for pure sinusoids (numerical accuracy of an FFT-based Hilbert transform and of spline
@@ -21,15 +24,17 @@ from pyvc.verify import Unit
 PROPERTY = 'C09'
 LEVEL = 'proof'
 SP = 'emd/spectra.py'
-FUNCTIONS = ['emd.spectra.freq_from_phase', 'emd.spectra.phase_from_freq', 'emd.utils.wrap_phase', 'emd.spectra.frequency_transform (hilbert branch; phase_from_complex_signal by contract)']
+FUNCTIONS = ['emd.spectra.freq_from_phase', 'emd.spectra.phase_from_freq', 'emd.utils.wrap_phase', 'emd.spectra.frequency_transform (hilbert branch; phase_from_complex_signal by contract)',
+             'emd.utils.amplitude_normalise (2-d input; interp_envelope by contract)']
 ASSUMPTIONS = [
     'floats are mathematical reals; pi is a real constant in (3.14159, 3.1416)',
     'assumed numpy contracts: gradient (unit spacing), cumsum (spec function sumR), real % (result in [0, m), congruent mod m - IEEE fmod can return m itself for tiny negative arguments: not modelled)',
     'assumed scipy / numpy contracts: signal.hilbert is linear, np.angle(c z) = np.angle(z) and |c z| = c |z| for c > 0 (scale lemmas); phase_from_complex_signal is a function of the analytic signal',
+    'amplitude_normalise unit: the combined envelope is a pure function of the column handed to interp_envelope (NHAS / NENV / NSUM uninterpreted; C05, C19); float division is total (a zero envelope sample gives inf / nan in numpy, not an exception: the division-by-nonzero obligation is dropped for this unit); number of columns, samples, max_iters and thresh symbolic; both the column loop and the while loop are cut',
     'the accuracy clause (pure sinusoid recovers frequency / amplitude / phase within a small tolerance) cannot be expressed over uninterpreted hilbert / angle / unwrap: bounded stand-in only',
 ]
 NOT_COVERED = ['accuracy on sinusoids for the three methods: bounded stand-in (methods x sample rates x frequencies x 3 amplitude decades x 8 phases) with calibrated tolerances',
-               'nht / quad branches and amplitude_normalise scale invariance: bounded stand-in']
+               'nht / quad branches of frequency_transform, amplitude_normalise scale invariance (needs homogeneity of the envelope + induction over the iterates) and its 3-d / clip paths: bounded stand-in']
 
 N = z3.Int('N')
 SR = z3.Real('sample_rate')
@@ -187,6 +192,129 @@ def _post_ft(c, a, kw, r):
     c.oblige('post:amplitude-is-modulus-of-the-analytic-signal', z3.Implies(rng, ia.elem(i, j) == HAMP(i, j)), 'post')
 
 
+# ----------------------------------------------------------------------------- amplitude_normalise: per-column iteration
+#
+# Spec vocabulary (interp_envelope(mode='combined') is modular: a pure function of the column it is given, C05 / C19):
+#   NHAS(v)  the combined envelope of the vector v exists;   NENV(v)  that envelope;   NSUM(v)  the sum of its samples
+#   NY(c, k) k-th normalisation iterate of COLUMN c of the input:  NY(c,0) = X[:, c],  NY(c,k+1) = NY(c,k) / NENV(NY(c,k))
+#   STOP(c, k)  <=>  k >= max_iters  or  not NHAS(NY(c,k))  or  (k >= 1 and |NSUM(NY(c,k)) - T| < thresh)
+#   NK(c)    the first k with STOP(c, k)            (exists: STOP(c, max_iters))
+# Contract:  amplitude_normalise(X)[:, c] = NY(c, NK(c))  for every column c - a function of that column alone, each column with its
+#            own budget of max_iters iterations.
+VV = z3.ArraySort(I, R)
+NHAS = z3.Function('NHAS', VV, B)
+NENV = z3.Function('NENV', VV, VV)
+NSUM = z3.Function('NSUM', VV, R)
+NY = z3.Function('NY', I, I, VV)
+NK = z3.Function('NK', I, I)
+TT, MM, MAXI = z3.Ints('T M max_iters')
+THR = z3.Real('thresh')
+XAN = z3.Function('Xan', I, I, R)
+
+
+def _absr(x):
+    return z3.If(x >= 0, x, -x)
+
+
+def _stop(c_, k):
+    w = NY(c_, k)
+    return z3.Or(k >= MAXI, z3.Not(NHAS(w)), z3.And(k >= 1, _absr(NSUM(w) - z3.ToReal(TT)) < THR))
+
+
+class EnvArr(SArr):
+    """the combined envelope of a column, as returned by the interp_envelope contract stub (its sum is the spec value NSUM)"""
+
+    def sum(self, *a, **k):
+        return SReal(NSUM(self.src))
+
+
+def _env_stub(X, mode='upper', interp_method='splrep', extrema_opts=None, ret_extrema=False):
+    from contracts.siftspec import vreify
+    c = core.C()
+    c.oblige('amplitude_normalise->interp_envelope:combined-envelope-of-one-column', z3.BoolVal(mode == 'combined' and X.ndim == 1), 'pre')
+    x = vreify(X)
+    if c.branch(NHAS(x)):
+        arr = NENV(x)
+        r = EnvArr((X.shape_e[0],), lambda t: arr[t], 'f')
+        r.as_array = arr
+        r.src = x
+        return r
+    return None
+
+
+def _mk_an(c):
+    c.assume(z3.And(TT >= 4, MM >= 1, MAXI >= 0, THR > 0))
+    cq, kq, tq = z3.Ints('nc nk nt')
+    inr = z3.And(0 <= tq, tq < TT)
+    # definitions
+    c.assume(z3.ForAll([cq, tq], NY(cq, 0)[tq] == z3.If(inr, XAN(tq, cq), z3.RealVal(0)), patterns=[NY(cq, 0)[tq]]))
+    c.assume(z3.ForAll([cq, kq, tq], z3.Implies(kq >= 0, NY(cq, kq + 1)[tq] == z3.If(inr, NY(cq, kq)[tq] / NENV(NY(cq, kq))[tq], z3.RealVal(0))), patterns=[NY(cq, kq + 1)[tq]]))
+    c.assume(z3.ForAll([cq], z3.And(0 <= NK(cq), NK(cq) <= MAXI, _stop(cq, NK(cq))), patterns=[NK(cq)]))
+    c.assume(z3.ForAll([cq, kq], z3.Implies(z3.And(0 <= kq, kq < NK(cq)), z3.Not(_stop(cq, kq))), patterns=[z3.MultiPattern(NK(cq), NY(cq, kq))]))
+    X = SArr((TT, MM), lambda t, q: XAN(t, q), 'f')
+    return (X,), dict(thresh=SReal(THR), max_iters=SInt(MAXI))
+
+
+def _col(e, c_):
+    """z3 array of column c_ of the working array (canonical: zero outside [0, T))"""
+    from contracts.siftspec import vreify
+    return vreify(e.X[:, c_, e.jimf])
+
+
+def _an_outer():
+    cq, tq = z3.Ints('oc ot')
+    return [
+        ('shape', lambda e: and_(SBool(e.X.shape_e[0] == TT), SBool(e.X.shape_e[1] == MM), SBool(z3.BoolVal(e.X.ndim == 3)), SBool(e.X.shape_e[2] == 1) if e.X.ndim == 3 else False)),
+        ('iimf', lambda e: and_(0 <= e.iimf, e.iimf <= MM)),
+        ('done-columns-are-their-own-normalisation', lambda e: SBool(z3.ForAll([cq, tq], z3.Implies(z3.And(0 <= cq, cq < lift(e.iimf), 0 <= tq, tq < TT),
+                                                                                                      e.X.elem(tq, cq, z3.IntVal(0)) == NY(cq, NK(cq))[tq])))),
+        ('later-columns-untouched', lambda e: SBool(z3.ForAll([cq, tq], z3.Implies(z3.And(lift(e.iimf) <= cq, cq < MM, 0 <= tq, tq < TT),
+                                                                                    e.X.elem(tq, cq, z3.IntVal(0)) == XAN(tq, cq))))),
+    ]
+
+
+def _an_inner():
+    cq, tq, kq = z3.Ints('ic it ik')
+
+    def cont(e):
+        k = lift(e.iters)
+        w = NY(lift(e.iimf), k)
+        return z3.And(NHAS(w), z3.Or(k == 0, _absr(NSUM(w) - z3.ToReal(TT)) >= THR))
+    return [
+        ('iters-within-the-budget-of-this-column', lambda e: and_(0 <= e.iters, SBool(z3.Or(lift(e.iters) <= MAXI, lift(e.iters) == 0)))),
+        ('column-is-the-iterate', lambda e: SBool(_col(e, e.iimf) == NY(lift(e.iimf), lift(e.iters)))),
+        ('continue-flag', lambda e: SBool(lift(e.continue_norm) == cont(e))),
+        ('envelope-is-that-of-the-iterate', lambda e: True if e.env is None else SBool(z3.Implies(lift(e.continue_norm), z3.ForAll([tq], z3.Implies(z3.And(0 <= tq, tq < TT), e.env.elem(tq) == NENV(NY(lift(e.iimf), lift(e.iters)))[tq]))))),
+        ('no-stop-before', lambda e: SBool(z3.ForAll([kq], z3.Implies(z3.And(0 <= kq, kq < lift(e.iters)), z3.Not(_stop(lift(e.iimf), kq)))))),
+        ('other-columns-unchanged', lambda e: SBool(z3.ForAll([cq, tq], z3.Implies(z3.And(0 <= cq, cq < MM, cq != lift(e.iimf), 0 <= tq, tq < TT),
+                                                                                   e.X.elem(tq, cq, z3.IntVal(0)) == e.pre.X.elem(tq, cq, z3.IntVal(0)))))),
+        ('shape', lambda e: and_(SBool(e.X.shape_e[0] == TT), SBool(e.X.shape_e[1] == MM))),
+    ]
+
+
+def _post_an(c, a, kw, r):
+    c0, t0 = z3.Ints('c0 t0')
+    c.oblige('post:shape-of-the-input', z3.And(z3.BoolVal(r.ndim == 2), r.shape_e[0] == TT, r.shape_e[1] == MM) if r.ndim == 2 else z3.BoolVal(False), 'post')
+    if r.ndim == 2:
+        c.oblige('post:each-column-is-its-own-normalisation-with-its-own-iteration-budget',
+                 z3.Implies(z3.And(0 <= c0, c0 < MM, 0 <= t0, t0 < TT), r.elem(t0, c0) == NY(c0, NK(c0))[t0]), 'post')
+
+
+def an_unit():
+    import emd.utils as EU
+
+    def call(f, c, a, kw):
+        f.__globals__['interp_envelope'] = _env_stub
+        return f(*a, **kw)
+    u = Unit('amplitude_normalise[per-column iteration]', 'emd/utils.py', 'amplitude_normalise', _mk_an, _post_an, module=EU, wrap_call=call,
+             loops={0: {'inv': _an_outer()},
+                    2: {'inv': _an_inner(),
+                        'decl': {'env': lambda e: SArr((TT,), (lambda g: lambda i: g(i))(core.C().fresh_fun('envh', I, R)), 'f')},
+                        'variant': lambda e: wrap(z3.If(lift(e.continue_norm), MAXI - lift(e.iters), z3.IntVal(-1)) + 1)}})
+    u.drop_names = ('division-by-nonzero',)
+    return u
+
+
 def units(tier):
     import emd.spectra as ES
     import emd.utils as EU
@@ -198,6 +326,7 @@ def units(tier):
     U.append(Unit('wrap_phase', 'emd/utils.py', 'wrap_phase', _mk_wrap, _post_wrap, module=EU))
     U.append(Unit('frequency_transform[hilbert]', SP, 'frequency_transform', _mk_ft, _post_ft, module=ES,
                   inline=[('emd/support.py', 'ensure_2d', {}), (SP, 'freq_from_phase', {}), ('emd/utils.py', 'wrap_phase', {})], wrap_call=_call_ft))
+    U.append(an_unit())
     return U
 
 
